@@ -383,6 +383,59 @@ def shapes_for(rng, fam: str):
     return kinds, r
 
 
+def multipart_for(rng, origin=None, unit=None):
+    """Multi-part geometries whose PARTS sit at every size class relative to the step `r`:
+    far below the step; below the step in both axes but with a diagonal edge above it (3-4-5 triangle / segment with
+    4u < r < 5u); exactly the step; far above it — as parts of MultiLineString / MultiPolygon / GeometryCollection, mixed
+    kinds, polygons with holes, nested collections.  All edges are axis-parallel with power-of-two multiples of `u` or
+    3-4-5 hypotenuses and r = 35u/8, so every densification is exact in binary64 (r/len dyadic)."""
+    from shapely import geometry as sg
+
+    u = unit if unit is not None else 2.0 ** rng.randint(-2, 3)
+    r = 35 * u / 8
+    ox, oy = origin if origin is not None else rng.choice(ORIGINS[:4])
+
+    def P(x, y):
+        return (ox + x * u, oy + y * u)
+
+    def tri(x, y, k, flip=False):   # legs 3k, 4k (short when k <= 1), hypotenuse 5k
+        pts = [P(x, y), P(x + 3 * k, y + 4 * k), P(x + 3 * k, y), P(x, y)]
+        return pts[::-1] if flip else pts
+
+    def rh(x, y, k):                # four hypotenuses of length 5k
+        return [P(x, y), P(x + 3 * k, y + 4 * k), P(x + 6 * k, y), P(x + 3 * k, y - 4 * k), P(x, y)]
+
+    def sq(x, y, m):
+        return [P(x, y), P(x, y + m), P(x + m, y + m), P(x + m, y), P(x, y)]
+
+    tiny_tri = sg.Polygon(tri(0, 0, 0.125))
+    diag_tri = sg.Polygon(tri(100, 0, 1))
+    diag_tri2 = sg.Polygon(tri(120, 10, 1, flip=True))
+    diag_line = sg.LineString([P(200, 0), P(203, 4)])
+    diag_line2 = sg.LineString([P(210, 4), P(213, 0)])           # the other diagonal
+    diag_zig = sg.LineString([P(220, 0), P(223, 4), P(220, 4), P(223, 0)])   # bbox 3u x 4u, two diagonals
+    tiny_line = sg.LineString([P(230, 0), P(230.375, 0.5)])
+    eq_sq = sg.Polygon(sq(300, 0, 35 / 8))                      # edges exactly r
+    big_rh = sg.Polygon(rh(400, 0, 8), [tri(420, -2, 1, flip=True), sq(412, 2, 2)[::-1]])
+    big_sq = sg.Polygon(sq(500, 0, 32), [rh(508, 16, 2)[::-1]])
+    big_zig = sg.LineString([P(600, 0), P(624, 32), P(648, 0), P(648, 64)])
+    ml = sg.MultiLineString([diag_line, tiny_line, diag_line2, big_zig, diag_zig])
+    mp = sg.MultiPolygon([tiny_tri, diag_tri, big_rh, eq_sq])
+    kinds = {
+        "multiline:sizes": ml,
+        "multipolygon:sizes": mp,
+        "multiline:only-diag": sg.MultiLineString([diag_line, diag_line2, diag_zig]),
+        "multipolygon:only-diag": sg.MultiPolygon([diag_tri, diag_tri2]),
+        "collection:only-diag": sg.GeometryCollection([diag_tri, diag_line, sg.Point(P(1, 1))]),
+        "collection:mixed": sg.GeometryCollection([sg.Point(P(-5, -5)), diag_line, diag_tri, big_sq, mp, tiny_line]),
+        "collection:nested": sg.GeometryCollection([
+            diag_tri2, sg.GeometryCollection([diag_line2, ml, sg.GeometryCollection([diag_zig, sg.MultiPolygon([diag_tri])])]),
+            sg.MultiPoint([P(0, 0), P(9, 9)]), big_rh]),
+        "polygon:diag-hole": big_sq,
+    }
+    return kinds, r
+
+
 # --------------------------------------------------------------------------- the check
 def real_densify(gm, coords, r):
     with warnings.catch_warnings():
@@ -601,6 +654,24 @@ def run_segmented(R: Run):
                 R.corr(line, f, sig=f"seg|{kind}|{fam}" + ("|trivial" if kind in ("point", "multipoint") else ""))
                 if "out" in box:
                     oracle_segmented(R, shp, r, box["out"], kind)
+    # multi-part geometries, parts at every size class relative to the step (exact: compared with the model part by part)
+    for _ in range(R.pick(6, 60)):
+        kinds, r = multipart_for(rng)
+        for kind, shp in kinds.items():
+            line = f"c07 seg {frac_s(r)} {enc_geom(shp)}"
+            box = {}
+
+            def fm():
+                try:
+                    out = seg_real(gm, shp, r)
+                except BaseException as e:  # pylint: disable=broad-except
+                    return err_s(e)
+                box["out"] = out
+                return enc_geom(out.geom)
+
+            R.corr(line, fm, sig=f"seg|{kind}|size-classes")
+            if "out" in box:
+                oracle_segmented(R, shp, r, box["out"], kind)
     # empty geometries: densify indexes coords[0]
     from shapely import geometry as sg
 
@@ -636,11 +707,18 @@ def run_segmented(R: Run):
     # float stream on every kind: arbitrary rotation / position / resolution
     from shapely import affinity
 
-    for _ in range(R.pick(20, 300)):
-        kinds, _ = shapes_for(rng, rng.choice(["axis", "pyth"]))
-        ang = rng.uniform(0, 360)
-        sc = 10.0 ** rng.uniform(-2, 3)
-        r = sc * rng.choice([0.3, 1.0, 2.5, 7.0, 1 / 3])
+    for it in range(R.pick(20, 300)):
+        if it % 2:
+            kinds, _ = shapes_for(rng, rng.choice(["axis", "pyth"]))
+            ang = rng.uniform(0, 360)
+            sc = 10.0 ** rng.uniform(-2, 3)
+            r = sc * rng.choice([0.3, 1.0, 2.5, 7.0, 1 / 3])
+        else:
+            # parts at every size class relative to the step, at an arbitrary rotation / scale / resolution in (4u, 5u)
+            kinds, r0 = multipart_for(rng, origin=(0.0, 0.0), unit=1.0)
+            ang = rng.uniform(0, 360)
+            sc = 10.0 ** rng.uniform(-2, 3)
+            r = sc * rng.uniform(4.02, 4.98)
         for kind, shp in kinds.items():
             shp2 = affinity.scale(affinity.rotate(shp, ang, origin=(0, 0)), sc, sc, origin=(0, 0))
             try:
@@ -668,8 +746,11 @@ def run_to_crs_model(R: Run):
     try:
         from shapely import geometry as sg
 
-        for rnd in range(R.pick(3, 20)):
-            kinds, r0 = shapes_for(rng, "axis" if rnd % 2 == 0 else "pyth")
+        for rnd in range(R.pick(4, 24)):
+            if rnd % 4 == 3:
+                kinds, r0 = multipart_for(rng)
+            else:
+                kinds, r0 = shapes_for(rng, "axis" if rnd % 2 == 0 else "pyth")
             kinds["square25"] = sg.box(0, 0, 25 * 2.0 ** rng.randint(0, 3), 25 * 2.0 ** rng.randint(0, 3))
             kinds["square50"] = sg.box(-50.0, 100.0, 0.0, 150.0)
             for kind, shp in kinds.items():
@@ -1003,6 +1084,139 @@ def run_spelling_matrix(R: Run):
                     spelling_case(R, gm, dlab, d, near, reg, sname, mk, ident, direction, kind, kinds[kind], rng)
 
 
+def run_multipart_to_crs(R: Run, rounds: Optional[int] = None):
+    import pyproj
+
+    gm, crsmod = _mods()
+    rng = R.rng
+    for (a, origin, unit) in (("3857", (1.5e6, 6.0e6), 1024.0), ("32633", (4.0e5, 5.2e6), 256.0), ("3577", (1.0e5, -3.0e6), 512.0)):
+        for b in ("4326", "3857" if a != "3857" else "6933"):
+            ra, rb = pyproj.CRS.from_epsg(int(a)), pyproj.CRS.from_epsg(int(b))
+            fresh = _fresh_tr(ra, rb, True)
+            src, dst = crsmod.CRS(f"EPSG:{a}"), crsmod.CRS(f"EPSG:{b}")
+            for _ in range(rounds if rounds is not None else R.pick(1, 4)):
+                kinds, r = multipart_for(rng, origin=origin, unit=unit * 2.0 ** rng.randint(-1, 1))
+                for kind, shp in kinds.items():
+                    g = gm.Geometry(shp, src)
+                    for wd in (False, True):
+                        if wd and not rb.is_geographic:
+                            continue
+                        case = {"fn": "to_crs", "kind": kind, "wkt": shp.wkt, "src": a, "dst": b, "resolution": r,
+                                "opts": {"wrapdateline": wd}}
+                        out = judge_to_crs(R, gm, g, dst, rb, fresh, False, {"resolution": r, "wrapdateline": wd}, case,
+                                           f"multipart|{a}->{b}|{kind}" + ("|wrapdateline" if wd else ""))
+                        if out is not None:
+                            # two-sided, per part: the number of projected vertices of every ring is what densifying that
+                            # ring at `r` asks for (closed form on squares), however small the part is
+                            for cin, cout in zip(rings_of(shp), rings_of(out.geom)):
+                                if len(cin) < 2:
+                                    continue
+                                want = len(cin)
+                                for p0, q0 in zip(cin[:-1], cin[1:]):
+                                    D2 = d2(p0, q0)
+                                    if D2 >= F(r) ** 2:
+                                        k = int(math.sqrt(float(D2)) / r)
+                                        while (k * F(r)) ** 2 >= D2:
+                                            k -= 1
+                                        while ((k + 1) * F(r)) ** 2 < D2:
+                                            k += 1
+                                        want += k
+                                R.oracle(len(cout) == want, "densify-wrong-vertex-count",
+                                         {**case, "ring": [list(map(float, p0)) for p0 in cin]},
+                                         f"to_crs(resolution={r}): a part with ring {cin[:3]}... has {len(cout)} projected vertices, "
+                                         f"densifying it at that resolution gives {want}", sig=f"multipart|count|{kind}")
+
+
+BOUNDARY_DELTAS = (1e-3, 1e-4, 5e-5, 1e-5, 1e-7, 0.0)
+
+
+def run_boundary(R: Run, deep: bool = False):
+    """Vertices whose image lies within {1e-3 ... 1e-7} degrees of lon +-180 / the latitude limit of the target CRS, and
+    world-extent boxes: built by inverse-projecting such lon/lat with a fresh Transformer into the source CRS.
+    wrapdateline=False (the default): every vertex == fresh pyproj.  wrapdateline=True: the same, except that a
+    longitude within 1e-4 of +-180 may come back as exactly +-180 (documented clip_lon180)."""
+    import pyproj
+    from shapely import geometry as sg
+
+    gm, crsmod = _mods()
+    rng = R.rng
+    srcs = [("3857", 85.0, (20037508.342789244, 20048966.104014594)), ("6933", 84.0, (17367530.445161372, 7314540.830638599)),
+            ("4087", 89.0, (20037508.342789244, 10018754.171394622))]
+    dsts = ["4326", "4258"] if not deep else ["4326", "4258", "4283", "4269"]
+    deltas = BOUNDARY_DELTAS if not deep else BOUNDARY_DELTAS + (2e-4, 9.9e-5, 1.01e-4, 1e-6, 1e-9)
+    for a, latmax, (xw, yw) in srcs:
+        ra = pyproj.CRS.from_epsg(int(a))
+        inv = _fresh_tr(_ref4326(), ra, True)
+        src = crsmod.CRS(f"EPSG:{a}")
+        for b in dsts:
+            rb = pyproj.CRS.from_epsg(int(b))
+            dst = crsmod.CRS(f"EPSG:{b}")
+            fresh = _fresh_tr(ra, rb, True)
+            geoms = {}
+            for dl in deltas:
+                for sx in (1, -1):
+                    lon = sx * (180.0 - dl)
+                    lats = [0.0, 33.25, -61.5, latmax - dl, -(latmax - dl)]
+                    pts = [inv.transform(lon, la) for la in lats]
+                    inner = inv.transform(sx * 170.0, 10.0)
+                    geoms[f"multipoint|dlon={sx * dl:g}"] = sg.MultiPoint(pts)
+                    geoms[f"line|dlon={sx * dl:g}"] = sg.LineString(pts + [inner])
+                    c = [inv.transform(sx * 170.0, -10.0), inv.transform(sx * 170.0, 10.0), inv.transform(lon, 10.0),
+                         inv.transform(lon, -10.0)]
+                    geoms[f"polygon|dlon={sx * dl:g}"] = sg.Polygon(c)
+                    geoms[f"collection|dlon={sx * dl:g}"] = sg.GeometryCollection([sg.Point(pts[0]), sg.LineString(pts[:3]), sg.Polygon(c)])
+            f = rng.choice([1.0, 0.999999, 0.99999])
+            geoms["world-box"] = sg.box(-xw, -yw * 0.9, xw, yw * 0.9)
+            geoms["world-box-shrunk"] = sg.box(-xw * f, -yw * 0.9, xw * f, yw * 0.9)
+            for kind, shp in geoms.items():
+                if not all(math.isfinite(v) for ring in rings_of(shp) for p0 in ring for v in p0):
+                    continue
+                g = gm.Geometry(shp, src)
+                for wd in (False, True):
+                    case = {"fn": "to_crs-boundary", "kind": kind, "wkt": shp.wkt, "src": a, "dst": b, "resolution": None,
+                            "opts": {"wrapdateline": wd}}
+                    if not wd:
+                        judge_to_crs(R, gm, g, dst, rb, fresh, False, {}, case, f"boundary|{a}->{b}|default")
+                        continue
+                    if "dlon=0" in kind or "dlon=-0" in kind or kind.startswith("world"):
+                        continue  # touches the antimeridian: wrapdateline=True is allowed to chop it
+                    try:
+                        with warnings.catch_warnings():
+                            warnings.simplefilter("ignore")
+                            out = g.to_crs(dst, wrapdateline=True)
+                    except BaseException as e:  # pylint: disable=broad-except
+                        R.oracle(False, "to-crs-raises", case, repr(e))
+                        continue
+                    ok = skel_of(out.geom) == skel_of(shp)
+                    bad = None if ok else "structure changed"
+                    if ok:
+                        for ci, co in zip(rings_of(shp), rings_of(out.geom)):
+                            for (x, y), (u_, v_) in zip(ci, co):
+                                eu, ev = fresh.transform(x, y)
+                                snap = abs(eu) >= 180 - 1e-4 and abs(u_) == 180.0
+                                if not ((_eq_nan(u_, eu) or snap) and _eq_nan(v_, ev)):
+                                    ok, bad = False, f"({x},{y}) -> ({u_},{v_}), pyproj gives ({eu},{ev})"
+                    R.oracle(ok, "to-crs-wrapdateline-differs-from-pyproj", case,
+                             f"to_crs {a}->{b} wrapdateline=True ({kind}): {bad}", sig=f"boundary|{a}->{b}|wrapdateline")
+
+
+def boundary_searcher(R: Run, mismatches):
+    """the correspondence (or proof) broke without a failing input: look harder at the classes that only show on real
+    projections — tail of to_crs next to the domain boundary of the target CRS, multi-part size classes"""
+    before = len(R.oracle_failures)
+    try:
+        run_boundary(R, deep=True)
+        run_multipart_to_crs(R, rounds=6)
+    except Exception as e:  # pylint: disable=broad-except
+        R.notes.append(f"searcher: {e!r}")
+    new = R.oracle_failures[before:]
+    if new:
+        f = new[0]
+        del R.oracle_failures[before:]
+        return {"key": f["key"], "case": f["case"], "what": f["what"]}
+    return None
+
+
 def run_to_crs_pyproj(R: Run):
     """the real to_crs against fresh pyproj Transformers: EPSG pairs x every keyword, CRSs without EPSG code in every
     lazy state of `.epsg`, and after a churn of several hundred dropped CRS definitions"""
@@ -1106,6 +1320,12 @@ def run_to_crs_pyproj(R: Run):
                 state = "both-read" if lza and lzb else "one-read" if lza or lzb else "unread"
                 judge_to_crs(R, gm, g, cb, refs[db], trs[(da, db)], truth_same, {"resolution": res}, case,
                              f"codeless|{state}|" + ("same" if truth_same else "other"), known_key=known)
+
+    # ---- A2. multi-part geometries with parts at every size class relative to the step, through to_crs(resolution=)
+    run_multipart_to_crs(R)
+
+    # ---- A3. vertices whose image lies next to the domain boundary of the target CRS (lon +-180, lat +-90)
+    run_boundary(R)
 
     # ---- B2. the CRS spelling / type dimension: target (and source) CRS handed over as int / 'EPSG:n' / WKT1 / WKT2 /
     #          PROJ string / PROJJSON / dict / pyproj / odc / rasterio / duck-typed objects, for near-EPSG systems whose
@@ -1263,6 +1483,7 @@ def run(R: Run):
         fn(R)
         timing[fn.__name__] = round(time.time() - t0, 2)
     R.extra["section_seconds"] = timing
+    R.searchers.append(boundary_searcher)
     R.exhaustive = False
     R.assumptions.append("shapely: LineString.length is the Euclidean length and interpolate(d) = p1 + (d/len)(p2-p1) "
                          "(contract EdgeOk; exercised by the exact stream and the on-edge / max-gap oracles)")
@@ -1308,6 +1529,23 @@ def replay(R: Run, rec) -> int:
                 a, b = fnc(float(v)), fnc(sv)
             print(f"{call} with {float(v)!r}: {len(a)} values; with {sk} {sv!r}: {len(b)} values; equal: {list(a) == list(b)}")
             return 0 if list(a) == list(b) else 1
+        if fn == "to_crs-boundary" or (fn == "to_crs" and case.get("opts") and str(case.get("src", "")).isdigit()
+                                       and str(case.get("dst", "")).isdigit()):
+            import pyproj
+            from shapely import wkt
+
+            _, crsmod = _mods()
+            ra, rb = pyproj.CRS.from_epsg(int(case["src"])), pyproj.CRS.from_epsg(int(case["dst"]))
+            g = gm.Geometry(wkt.loads(case["wkt"]), crsmod.CRS(f"EPSG:{case['src']}"))
+            opts = dict(case.get("opts") or {})
+            if case.get("resolution") is not None:
+                opts["resolution"] = float(case["resolution"])
+            before = len(R.oracle_failures)
+            judge_to_crs(R, gm, g, crsmod.CRS(f"EPSG:{case['dst']}"), rb, pyproj.Transformer.from_crs(ra, rb, always_xy=True),
+                         False, opts, case, "replay")
+            for f in R.oracle_failures[before:]:
+                print(f["key"], f["what"][:400])
+            return 1 if len(R.oracle_failures) > before else 0
         if fn == "to_crs-spelling":
             from .c01_spellings import NEAR_EPSG, spellings
 
